@@ -212,6 +212,11 @@ for _p in ("C02", "C03", "C04"):
     PROPS[_p] = dict(engines=["traversal"], rule=TRAV_RULE, trusted=TRAV_TRUSTED, assumptions=TRAV_ASSUME)
 # the result set of a lookup IS the K-nearest container: C02 also runs the container's engine
 PROPS["C02"]["engines"] = ["traversal", "metric"]
+# the lookup's order relations (int160.Cmp / Distance, CloserThan, the sorted candidate set, the K-nearest container) decide C03 and
+# C04 as much as C02: their checks run the metric engine too (its lines are model-compared, its oracle lines belong to C18)
+for _p in ("C03", "C04"):
+    PROPS[_p]["engines"] = ["traversal", "metric"]
+    PROPS[_p]["rule"] = TRAV_RULE + " ; metric engine: int160 / closer-than / sorted-set / K-nearest lines against the model (see C18)"
 PROPS["C02"]["rule"] = TRAV_RULE + " ; metric engine: K-nearest push sequences with equal-id / equal-address / equal-distance ties (see C18)"
 
 # engine `api` (srv_api*.go, RunApi.v / ApiProofs.v): the exported API used from several goroutines at once
